@@ -204,6 +204,34 @@ impl Judge<'_> {
             if stale_treeless {
                 rec.count("treeless_blocks_referring_to_a_table_the_decoder_never_got", 1);
             }
+            {
+                // a literals section that fell back to raw inside a block that stayed compressed, and Huffman literals later in the frame
+                let mut lit_fallback = false;
+                let mut seen = false;
+                for e in events.iter() {
+                    match e {
+                        EncEvent::Literals { mode, raw_fallback, .. } => {
+                            if seen && *mode >= 2 && !*raw_fallback {
+                                rec.count("huffman_literals_after_a_raw_literals_fallback_inside_a_compressed_block", 1);
+                                seen = false;
+                            }
+                            if *mode >= 2 {
+                                lit_fallback = *raw_fallback;
+                            }
+                        }
+                        EncEvent::Block { block_type, last_block, .. } => {
+                            if lit_fallback && *block_type == 2 {
+                                seen = true;
+                            }
+                            lit_fallback = false;
+                            if *last_block {
+                                seen = false;
+                            }
+                        }
+                        _ => {}
+                    }
+                }
+            }
             let site = format!("frame{}of{} level={}", (k + 1).min(2), jobs.len().min(2), job.level);
             let flags = format!("family={family} stale_huffman_table={stale_treeless}");
             let detail = |what: Value| json!({"what": what, "frame_index": k, "input_len": job.data.len(), "input": job.what, "events": ev.chars().take(120).collect::<String>(), "frame_head": hex_brief(frame)});
@@ -333,6 +361,44 @@ fn perm255(r: &mut Rng, n: usize, favourite: u8) -> Vec<u8> {
         v[i] = favourite;
     }
     v
+}
+
+/// A compressed block whose *literals section* falls back to raw (about 1100 literals over ~200 symbols: the table
+/// description costs more than it saves) while the block itself stays compressed because the rest of it is matches,
+/// followed by a block with many literals of the same statistics (same symbols, same order of frequencies), for which
+/// Huffman coding pays off. A table built for the first block must not be remembered: the decoder never got it.
+/// `prior_table`: a block in front installs a table for the same symbols with other code lengths.
+fn raw_literals_then_same_stats(r: &mut Rng, prior_table: bool) -> (Vec<u8>, String) {
+    let symbols = r.usize(190, 240);
+    let first_value = r.usize(0, 255 - symbols) as u8;
+    let lits = |r: &mut Rng, times: usize, flipped: bool| -> Vec<u8> {
+        let mut v = Vec::new();
+        for s in 0..symbols {
+            let count = if (s < symbols / 2) != flipped { 6 } else { 5 } * times;
+            v.extend(std::iter::repeat(first_value + s as u8).take(count));
+        }
+        for i in (1..v.len()).rev() {
+            let j = r.usize(0, i);
+            v.swap(i, j);
+        }
+        v
+    };
+    let mut data = Vec::new();
+    if prior_table {
+        let mut p = lits(r, 130, true);
+        p.truncate(BLOCK);
+        while p.len() < BLOCK {
+            p.push(first_value);
+        }
+        data.extend(p);
+    }
+    let run = lits(r, 1, false);
+    data.extend(run.iter().copied().cycle().take(BLOCK));
+    let times2 = r.usize(15, 60);
+    let mut second = lits(r, times2, false);
+    second.truncate(BLOCK - 1);
+    data.extend(second);
+    (data, format!("{symbols} symbols: {}a run of {} literals repeated to fill a block, then {} literals with the same statistics", if prior_table { "a block with other code lengths, " } else { "" }, run.len(), times2 * symbols * 11 / 2))
 }
 
 /// Search for a first block that is stored raw although its Huffman table was kept (steered by the encoder event log),
@@ -510,6 +576,10 @@ pub fn run(args: &Args) -> i32 {
                 Some((data, what)) => directed.push((if k % 2 == 1 { "discarded_block_state".into() } else { "near_break_even".into() }, vec![FrameJob { data, level: 1, pattern: vec![usize::MAX], what }])),
                 None => rec.count("near_break_even_searches_without_hit", 1),
             }
+        }
+        for k in 0..6 {
+            let (data, what) = raw_literals_then_same_stats(&mut r, k % 2 == 1);
+            directed.push(("raw_literals_in_compressed_block".into(), vec![FrameJob { data, level: 1, pattern: vec![usize::MAX], what }]));
         }
     }
     rec.count("directed_cases", directed.len() as u64);
